@@ -29,8 +29,10 @@ echo "demo with patch: rc=$patched_rc" | tee -a "$log"
 git checkout -q -- . ; git clean -qfd -e SEEDED -e target 2>/dev/null
 echo "== our check against the change" | tee -a "$log"
 cd /repo && git apply "$wt/SEEDED/patch.diff" || { echo "patch does not apply to /repo" | tee -a "$log"; exit 2; }
+rm -rf /verif/.evidence.keep; cp -r /verif/evidence /verif/.evidence.keep
 ( cd /verif && VERIF_SCALE="$scale" ./check "$prop" quick ) > "$out/check_output.txt" 2>&1; check_rc=$?
-git -C /repo checkout -- . 
+git -C /repo checkout -- .
+rm -rf /verif/evidence; mv /verif/.evidence.keep /verif/evidence   # evidence files must only ever come from the unchanged tree 
 echo "check $prop quick (scale $scale): rc=$check_rc" | tee -a "$log"
 grep -E "^violation:|^detail:|^VIOLATION|harness error" "$out/check_output.txt" | cut -c1-600 | tee -a "$log"
 cp "$wt/SEEDED/patch.diff" "$out/patch.diff"
